@@ -164,24 +164,7 @@ func (x *opPathIdent) Do(currentData, _ any) (dataToUse any, err error) {
 	}
 
 	if v.Kind() == reflect.Map {
-		for _, e := range v.MapKeys() {
-			mks, ok := e.Interface().(string)
-			if !ok {
-				if reflect.TypeOf(e.Interface()).ConvertibleTo(reflect.TypeOf("")) {
-					mksTemp := reflect.ValueOf(e.Interface()).Convert(reflect.TypeOf("")).Interface()
-					mks, ok = mksTemp.(string)
-					if !ok || mks == "" {
-						continue
-					}
-				} else {
-					continue
-				}
-			}
-
-			if !strings.EqualFold(mks, x.IdentName) {
-				continue
-			}
-
+		if e, found := findMapKey(v, x.IdentName); found {
 			dataToUse = convertNumberKindsToDecimal(v.MapIndex(e).Interface())
 			return
 		}
